@@ -186,6 +186,10 @@ def t_expect(ctx):
     # ---- others unaffected: mon ran exactly once per dispatched event
     idxs = [idx_of[e.event_id] for (e, _, _) in seen]
     ctx.check('C18.others_unaffected', sorted(map(str, idxs)) == ['0', '1', '2', 'o'], seen=list(map(str, idxs)))
+    # ... and the temporary subscription never leaves an error behind on an event (e.g. when it is called after expect() ended)
+    stale = [(idx_of.get(e.event_id), type(r.error).__name__) for e in evs for r in e.event_results.values()
+             if 'expect' in (r.handler_name or '') and r.error is not None]
+    ctx.check('C18.others_unaffected', not stale, stale=stale, why='the temporary expect() handler failed on an in-flight event')
     if variant == 'override':
         # on this tree a class with an overridden event_type is registered under its class name, so expect() simply times out;
         # what must hold in any case is the clean-up and that nothing non-matching is returned
